@@ -50,4 +50,7 @@ LFirstBad(s, def, evs, i) ==
             \/ (e.ev = "change" /\ r.pub /\ ~ModelEq(e.old, r.old))
             \/ (e.ev = "delete" /\ e.hasdata /\ ~SameRes(e.deleted, s))
          THEN i ELSE LFirstBad(r.s, def, evs, i + 1)
+\* what is stored after a whole history (events that cannot be applied leave it unchanged)
+RECURSIVE LFold(_, _, _, _)
+LFold(s, def, evs, i) == IF i > Len(evs) THEN s ELSE LFold(LStep(s, def, evs[i]).s, def, evs, i + 1)
 =============================================================================
